@@ -8,11 +8,13 @@ import FsModel.FileDriver
 import FsModel.CopyDriver
 import FsModel.ArchiveDriver
 import FsModel.RouteDriver
+import FsModel.FaultDriver
+import FsModel.GuardDriver
 
 open Fs
 
 def handlers : List (String → List String → Option String) :=
-  [ PathDriver.handle, RefDriver.handle, FileDriver.handle, CopyDriver.handle, ArchiveDriver.handle, RouteDriver.handle ]
+  [ PathDriver.handle, RefDriver.handle, FileDriver.handle, CopyDriver.handle, ArchiveDriver.handle, RouteDriver.handle, FaultDriver.handle, GuardDriver.handle ]
 
 def dispatch (line : String) : String :=
   match (line.trimAscii.toString.splitOn " ").filter (· ≠ "") with
